@@ -539,6 +539,25 @@ func c08Server(s *sim.Sim, p *sim.Params, providers bool) {
 			plans[ti] = append(plans[ti], r)
 		}
 	}
+	if !providers && s.Choose(sim.SWork, 4) == 0 {
+		// "cold start" runs: the first request of every task is a typed one (valid or not), so that
+		// whatever the server builds lazily on first use of a type is built under contention
+		s.Probe("cold-start-typed-run")
+		for ti := range plans {
+			path := "/c/typed"
+			if interp {
+				path = "/pure/typed"
+			}
+			body := fmt.Sprintf(`{"name":"n%d","qty":%d}`, ti, ti+1)
+			switch s.Choose(sim.SWork, 3) {
+			case 0:
+				body = `{"name": 5}`
+			case 1:
+				body = fmt.Sprintf(`{"name":"n%d","qty":%d,"color":"red"}`, ti, ti)
+			}
+			plans[ti][0] = simReq{method: "POST", path: path, body: body, remote: plans[ti][0].remote}
+		}
+	}
 	// solo references: every request without provider effects, alone on a fresh server
 	solo := map[string]simResp{}
 	if !providers || true {
@@ -580,7 +599,9 @@ func c08Server(s *sim.Sim, p *sim.Params, providers bool) {
 			resp := sv.do(r)
 			results = append(results, c08result{99, r, resp, call, s.Stamp()})
 		}
-		s.Sleep(1500 * time.Millisecond)
+		// either well past the expiry, or exactly at it (whatever expires the entries then runs
+		// at the same instant as the first requests of the concurrent phase)
+		s.Sleep([]time.Duration{1500 * time.Millisecond, time.Second, time.Second}[s.Choose(sim.SWork, 3)])
 		for ti := range plans {
 			for k := range plans[ti] {
 				if s.Choose(sim.SWork, 2) == 0 {
@@ -1006,8 +1027,8 @@ func c08genOp(s *sim.Sim, which int, n *int) c08op {
 	u := fmt.Sprintf("u%d", *n)
 	switch which {
 	case 0:
-		k := []string{"db.create", "db.create", "db.get", "db.update", "db.delete", "db.all", "db.filter", "db.length", "db.nextid"}[s.Choose(sim.SWork, 9)]
-		o := c08op{Kind: k, A: u, N: 1 + s.Choose(sim.SWork, 3)}
+		k := []string{"db.create", "db.create", "db.get", "db.update", "db.delete", "db.all", "db.filter", "db.length", "db.nextid", "db.all", "db.delete", "db.all"}[s.Choose(sim.SWork, 12)]
+		o := c08op{Kind: k, A: u, N: 1 + s.Choose(sim.SWork, 6)}
 		if k == "db.filter" {
 			o.A = fmt.Sprintf("u%d", 1+s.Choose(sim.SWork, 4))
 		}
@@ -1049,7 +1070,17 @@ func c08Providers(s *sim.Sim, p *sim.Params) {
 	n := 0
 	// a sequential prefix so that the concurrent phase starts from a populated store
 	var prefix []c08op
-	for i := s.Choose(sim.SWork, 4); i > 0; i-- {
+	npre := s.Choose(sim.SWork, 4)
+	if which == 0 && s.Choose(sim.SWork, 2) == 0 {
+		// a table with a few rows to list, update and delete
+		for i := 3 + s.Choose(sim.SWork, 4); i > 0; i-- {
+			n++
+			o := c08op{Kind: "db.create", A: fmt.Sprintf("u%d", n)}
+			prefix = append(prefix, o)
+			sample = append(sample, fmt.Sprintf("pre %v -> %s", o, pv.apply(o)))
+		}
+	}
+	for i := npre; i > 0; i-- {
 		o := c08genOp(s, which, &n)
 		prefix = append(prefix, o)
 		r := pv.apply(o)
